@@ -106,6 +106,7 @@ type routerSession struct {
 	shadow  map[int][]flamego.VerifLeaf
 	cur     *reqRecord
 	lastHid int
+	autoHead bool // what the last AUTOHEAD line set (Flame.AutoHead); the shadow trees follow it
 }
 
 func showParams(ps map[string]string) string {
@@ -210,6 +211,13 @@ func (s *routerSession) op(l []string) (out string) {
 			return "bad-op"
 		}
 		return s.add(atoi(l[1]), l[2], unhx(l[3]))
+	case "AUTOHEAD":
+		// AUTOHEAD <0|1>: Flame.AutoHead(v) — from now on Get (also Combo(…).Get) registers the HEAD twin as well
+		if len(l) != 2 {
+			return "bad-op"
+		}
+		s.autoHead = l[1] == "1"
+		return okErr(func() { s.f.AutoHead(s.autoHead) })
 	case "HDR":
 		if len(l) < 2 || (len(l)-2)%3 != 0 {
 			return "bad-op"
@@ -283,6 +291,10 @@ func (s *routerSession) add(hid int, methods, text string) string {
 	// "combo:GET,POST": the same registration through Combo(text).Get(h).Post(h), named through ComboRoute.Name
 	combo := strings.HasPrefix(methods, "combo:")
 	methods = strings.TrimPrefix(methods, "combo:")
+	// "verb:GET": the registration through the verb method of that name (f.Get(text, h), f.Post(text, h) …); the Route
+	// it returns is the handle for HDR / NAME
+	verb := strings.HasPrefix(methods, "verb:")
+	methods = strings.TrimPrefix(methods, "verb:")
 	h := func(c flamego.Context) {
 		if s.cur == nil {
 			return
@@ -340,6 +352,13 @@ func (s *routerSession) add(hid int, methods, text string) string {
 				verb(h)
 			}
 			s.combos[hid] = c
+		case verb:
+			fn, ok := map[string]func(string, ...flamego.Handler) *flamego.Route{"GET": s.f.Get, "POST": s.f.Post, "PUT": s.f.Put,
+				"DELETE": s.f.Delete, "PATCH": s.f.Patch, "OPTIONS": s.f.Options, "HEAD": s.f.Head, "CONNECT": s.f.Connect, "TRACE": s.f.Trace}[methods]
+			if !ok {
+				panic("no such verb " + methods)
+			}
+			rt = fn(text, h)
 		case methods == "*":
 			rt = s.f.Any(text, h)
 		case strings.Contains(methods, ","):
@@ -384,7 +403,20 @@ func (s *routerSession) add(hid int, methods, text string) string {
 				ms = append(ms, strings.ToUpper(strings.TrimSpace(m)))
 			}
 		}
-		for _, m := range ms {
+		// Get while AutoHead is on (directly or through Combo): the same route once more under HEAD, a registration of
+		// its own — the Route that Get returns (the handle of HDR) is the GET registration's
+		twin := -1
+		if s.autoHead && (verb || combo) {
+			for i, m := range ms {
+				if m == "GET" {
+					twin = i + 1
+				}
+			}
+			if twin >= 0 {
+				ms = append(ms[:twin:twin], append([]string{"HEAD"}, ms[twin:]...)...)
+			}
+		}
+		for i, m := range ms {
 			t, ok := s.trees[m]
 			if !ok {
 				shadow = "err"
@@ -395,7 +427,9 @@ func (s *routerSession) add(hid int, methods, text string) string {
 				shadow = "err"
 				return
 			}
-			s.shadow[hid] = append(s.shadow[hid], leaf)
+			if i != twin {
+				s.shadow[hid] = append(s.shadow[hid], leaf)
+			}
 		}
 	}()
 	if shadow != res {
